@@ -710,4 +710,47 @@ theorem consolePrint_some (fc : Bytes) (outer begin end_ : Pos) (errText file : 
       rw [this] at heq; simp at heq
   · split <;> exact ⟨_, rfl⟩
 
+def sl (fc : Bytes) (a b : Nat) : Bytes := (fc.drop a).take (b - a)
+
+theorem safeRange_ok {s : Bytes} {b e : Nat} (h1 : b ≤ e) (h2 : e ≤ s.length) : safeRange s b e = some (sl s b e, false) := by
+  unfold safeRange goSlice sl
+  rw [if_neg (by simp; omega), if_pos (by simp; omega)]
+
+/-- When the context is not corrupted, `consolePrint` renders the two-line form: the lines from the start of the
+combinator, the offending line with the error token coloured, and the arrow line. -/
+theorem consolePrint_pretty (fc : Bytes) (outer begin end_ : Pos) (errText file : Bytes) (w : Bool)
+    (hsame : begin.slo = end_.slo) (h : contextCorrupted fc outer begin end_ = false) :
+    consolePrint fc outer begin end_ errText file w =
+      some (sl fc outer.slo begin.slo ++ replaceTabs (sl fc begin.slo begin.off) ++
+        colorize (if w then colYellow else colRed) (replaceTabs (sl fc begin.off end_.off)) ++
+        replaceTabs (upToLineEnd (sl fc end_.off fc.length)) ++ [cLF] ++
+        List.replicate (replaceTabs (sl fc begin.slo begin.off)).length cSpace ++
+        colorize colWhite ((if (List.replicate (replaceTabs (sl fc begin.off end_.off)).length (94 : UInt8)).isEmpty then [94]
+          else List.replicate (replaceTabs (sl fc begin.off end_.off)).length (94 : UInt8)) ++ [cMinus, cMinus]) ++ [cSpace] ++
+        (if w then colorize colYellow (strBytes "warning: ") else []) ++
+        (errText ++ [cSpace] ++ file ++ strBytes " (line " ++ decBytes begin.line ++ strBytes " col " ++ decBytes begin.col ++ [cRRound]) ++
+        [cLF]) := by
+  rw [Bool.eq_false_iff] at h
+  have hN : ¬ (outer.slo > fc.length ∨ begin.slo < outer.slo ∨ begin.slo > fc.length ∨
+      end_.slo < begin.slo ∨ end_.slo > fc.length ∨ end_.off < end_.slo ∨ end_.off > fc.length ∨
+      (begin.slo = end_.slo ∧ (begin.off < begin.slo ∨ begin.off > fc.length ∨ end_.off < begin.off))) := by
+    intro hp; exact h (by simp only [contextCorrupted]; exact decide_eq_true hp)
+  have h2 : outer.slo ≤ begin.slo := by omega
+  have h3 : begin.slo ≤ fc.length := by omega
+  have h4 : begin.slo ≤ end_.slo := by omega
+  have h5 : end_.slo ≤ fc.length := by omega
+  have h6 : end_.slo ≤ end_.off := by omega
+  have h7 : end_.off ≤ fc.length := by omega
+  have h8' : begin.slo ≤ begin.off ∧ begin.off ≤ fc.length ∧ begin.off ≤ end_.off := by omega
+  unfold consolePrint
+  rw [safeRange_ok h2 h3, safeRange_ok h4 h5, safeRange_ok h6 h7]
+  simp only [hsame, beq_self_eq_true, if_true]
+  rw [← hsame, safeRange_ok h8'.1 h8'.2.1, safeRange_ok h8'.2.2 h7]
+  simp only []
+  have hg : goSlice fc end_.off fc.length = some (sl fc end_.off fc.length) := by
+    unfold goSlice sl; rw [if_pos (by simp; omega)]
+  rw [if_neg (by omega), hg]
+  have hemp : sl fc begin.slo begin.slo = [] := by simp [sl]
+  simp only [Bool.or_self, Bool.false_eq_true, if_false, hemp, ne_eq, not_true_eq_false]
+  
 end TLVerif.Syntax
